@@ -103,7 +103,7 @@ Inductive prim1 :=
 | PNot | PLen | PToStr | PExists | PCount | PSum | PMin | PMax | PAny | PAll
 | PEnumerate | PUnpack | PASingle | PAExists | PADistinct.
 Inductive prim2 :=
-| PEq | PNeq | PLt | PAdd | PMul | PCat | PAnd | POr | POptEq | PIn | PAGet.
+| PEq | PNeq | PLt | PAdd | PMul | PCat | PAnd | POr | POptEq | POptNeq | PIn | PAGet.
 
 (* shape element qualifiers: (required?, cardinality?) as written *)
 Inductive qual := QNone | QReq | QOpt | QSingle | QMulti | QReqSingle | QReqMulti.
@@ -153,7 +153,7 @@ Definition sig1 (f : prim1) : typemod * typemod * bool * bool :=
   end.
 Definition sig2 (f : prim2) : typemod * typemod * typemod :=
   match f with
-  | POptEq => (OptionalType, OptionalType, SingletonType)
+  | POptEq | POptNeq => (OptionalType, OptionalType, SingletonType)
   | PIn => (SingletonType, SetOfType, SingletonType)
   | PAGet => (SingletonType, SingletonType, OptionalType)
   | _ => (SingletonType, SingletonType, SingletonType)
@@ -246,6 +246,9 @@ Definition sem2 (f : prim2) (la lb : list value) : option (list value) :=
   | POptEq, [], [] => Some [VBool true]
   | POptEq, [x], [y] => Some [VBool (value_eqb x y)]
   | POptEq, _, _ => Some [VBool false]
+  | POptNeq, [], [] => Some [VBool false]
+  | POptNeq, [x], [y] => Some [VBool (negb (value_eqb x y))]
+  | POptNeq, _, _ => Some [VBool true]
   | PIn, [x], l => Some [VBool (mem x l)]
   | PAGet, [VArr a b], [VInt i] => Some (if Z.eqb i 0 then [a] else if Z.eqb i 1 then [b] else [])
   | PAGet, _, _ => Some []
